@@ -34,41 +34,48 @@ func init() {
 // checkMirror evaluates the mirror obligations on a summary `sum` whose expressions are in terms
 // of function f with the request being parameter index reqIdx (or a free variable name).
 func (c *Ctx) checkMirror(sum objSummary, req string, key, at string, needStream bool) {
+	c.checkMirrorRule("R1", sum, req, key, at, needStream, true)
+}
+
+func (c *Ctx) checkMirrorRule(rule string, sum objSummary, req string, key, at string, needStream, needFlags bool) {
 	r := c.R
 	for _, fld := range []string{"CommandCode", "ApplicationID", "HopByHopID", "EndToEndID"} {
 		got := sum["Header."+fld]
 		want := "path:" + req + ":Header." + fld
 		k := key + ":Header." + fld
 		if got == nil {
-			r.Fail("R1", k, at, "the answer's "+fld+" is never set")
+			r.Fail(rule, k, at, "the answer's "+fld+" is never set")
 			continue
 		}
 		if got.String() == want {
-			r.Ok("R1", k, at, "must-equal copy of the request's "+fld)
+			r.Ok(rule, k, at, "must-equal copy of the request's "+fld)
 		} else {
 			why := fmt.Sprintf("the answer's %s is %s, not a verbatim copy of the request's %s", fld, short(got.String(), 120), fld)
 			if strings.Contains(got.String(), "rand") {
 				why += " (a random value replaces the id when the request's id is 0: the peer cannot match the answer)"
 			}
-			r.Fail("R1", k, at, why)
+			r.Fail(rule, k, at, why)
 		}
+	}
+	if !needFlags {
+		return
 	}
 	// flags
 	k := key + ":Header.CommandFlags"
 	got := sum["Header.CommandFlags"]
 	if got == nil {
-		r.Fail("R1", k, at, "the answer's CommandFlags is never set")
+		r.Fail(rule, k, at, "the answer's CommandFlags is never set")
 	} else {
 		bits, ok := bitXfer(got, "path:"+req+":Header.CommandFlags")
 		switch {
 		case !ok:
-			r.Fail("R1", k, at, "the answer's flags are not a bit function of the request's flags: "+short(got.String(), 100))
+			r.Fail(rule, k, at, "the answer's flags are not a bit function of the request's flags: "+short(got.String(), 100))
 		case bits[7] != 'z':
-			r.Fail("R1", k, at, "the request bit is not cleared in the answer on every path (bit 7 is '"+string(bits[7])+"'; z=zero o=one s=same ?=path-dependent); flags = "+short(got.String(), 160))
+			r.Fail(rule, k, at, "the request bit is not cleared in the answer on every path (bit 7 is '"+string(bits[7])+"'; z=zero o=one s=same ?=path-dependent); flags = "+short(got.String(), 160))
 		case bits[6] != 's':
-			r.Fail("R1", k, at, "the proxiable bit of the request is not preserved in the answer on every path (bit 6 is '"+string(bits[6])+"'; z=zero o=one s=same ?=path-dependent); flags = "+short(got.String(), 160))
+			r.Fail(rule, k, at, "the proxiable bit of the request is not preserved in the answer on every path (bit 6 is '"+string(bits[6])+"'; z=zero o=one s=same ?=path-dependent); flags = "+short(got.String(), 160))
 		default:
-			r.Ok("R1", k, at, fmt.Sprintf("flags transformer bits7..0 = %s: R cleared, P unchanged", reverse(bits)))
+			r.Ok(rule, k, at, fmt.Sprintf("flags transformer bits7..0 = %s: R cleared, P unchanged", reverse(bits)))
 		}
 	}
 	if needStream {
@@ -76,9 +83,9 @@ func (c *Ctx) checkMirror(sum objSummary, req string, key, at string, needStream
 		got := sum["stream"]
 		want := "path:" + req + ":stream"
 		if got != nil && got.String() == want {
-			r.Ok("R1", k, at, "stream is a copy of the request's stream")
+			r.Ok(rule, k, at, "stream is a copy of the request's stream")
 		} else {
-			r.Fail("R1", k, at, fmt.Sprintf("the answer's stream is %v, not the request's stream: the reply leaves on another transport stream", got))
+			r.Fail(rule, k, at, fmt.Sprintf("the answer's stream is %v, not the request's stream: the reply leaves on another transport stream", got))
 		}
 	}
 }
